@@ -78,6 +78,7 @@ theorem invG_step (v : Variant) (s s' : State) (l : Label) (o : Out)
     cases l <;> simp only [step] at h
     case unlock => simp at h
     case guarded => simp at h
+    case sign => simp at h
     case spBegin => simp at h
     case restart => simp at h
     case read =>
@@ -157,6 +158,13 @@ theorem struct_step (v : Variant) (s s' : State) (l : Label) (o : Out)
     | none =>
       simp only [step] at h
       split at h <;> simp only [Option.some.injEq, Prod.mk.injEq] at h <;> obtain ⟨rfl, rfl⟩ := h <;> exact hi
+  | sign a p =>
+    cases sp with
+    | some c => simp [step] at h
+    | none =>
+      simp only [step, Option.some.injEq, Prod.mk.injEq] at h
+      obtain ⟨rfl, rfl⟩ := h
+      exact hi
   | restart =>
     cases sp with
     | some c => simp [step] at h
@@ -245,6 +253,13 @@ theorem invR_step (s s' : State) (l : Label) (o : Out) (hst : StructInv code s)
     | none =>
       simp only [step] at h
       split at h <;> simp only [Option.some.injEq, Prod.mk.injEq] at h <;> obtain ⟨rfl, rfl⟩ := h <;> exact hi
+  | sign a p =>
+    cases sp with
+    | some c => simp [step] at h
+    | none =>
+      simp only [step, Option.some.injEq, Prod.mk.injEq] at h
+      obtain ⟨rfl, rfl⟩ := h
+      exact hi
   | restart =>
     cases sp with
     | some c => simp [step] at h
@@ -299,6 +314,7 @@ theorem noSp_sp_none {v : Variant} {s : State} (h : ReachNoSp v s) : s.sp = none
     | guarded =>
       simp only [step, ih] at hst
       split at hst <;> simp only [Option.some.injEq, Prod.mk.injEq] at hst <;> rw [← hst.1] <;> exact ih
+    | sign a p => simp only [step, ih, Option.some.injEq, Prod.mk.injEq] at hst; rw [← hst.1]; exact ih
     | restart => simp only [step, ih, Option.some.injEq, Prod.mk.injEq] at hst; rw [← hst.1]
     | unlock a b c =>
       simp only [step, ih] at hst
